@@ -52,6 +52,9 @@ struct verif_atomic {
 using namespace phosg;
 extern "C" uint8_t verif_cb(uint64_t v, uint64_t thread_num); // harness: records the visit, returns the truth bit
 static bool cb(uint64_t v, size_t t) { return verif_cb(v, t) != 0; }
+#ifndef C16_LAUNCH_ONLY
+// Worker-level wrappers (unit 'tools'): they name the internal worker templates directly, so a refactoring of those
+// internals can make this part fail to compile - the 'launch' unit (public API only, -DC16_LAUNCH_ONLY) is then still decided.
 struct Shared {
   std::function<bool(uint64_t, size_t)> fn;
   std::atomic<uint64_t> cur;
@@ -82,6 +85,7 @@ WEXPORT uint64_t w_cursor(Shared* s) { return *reinterpret_cast<uint64_t*>(&s->c
 WEXPORT void* w_cur_addr(Shared* s) { return &s->cur; }
 WEXPORT void* w_res_addr(Shared* s) { return &s->res; }
 WEXPORT void w_free(Shared* s) { delete s; }
+#endif
 static_assert(sizeof(std::atomic<uint64_t>) == 8, "atomic word is a plain 64-bit word");
 
 // ---- the launch/join logic of parallel_range itself (std::thread is modelled: see h_launch.c)
